@@ -12,7 +12,9 @@ EXPLANATION = (
     "argument of another emitting formatter function, or the condition of a branch that guards an emit; a value read only for layout decisions "
     "(is_multi_line*, newline*) does not count; accessors that are legitimately not printed (derived views of data printed through another accessor) "
     "are listed in tables/c18.toml with their reason; a new AST datum appears as a new obligation; (R2) every match of the formatter on an AST enum is "
-    "exhaustive without wildcard, so a new node kind cannot be silently dropped; (R3) imports are sorted by schema name before they are emitted and the formatter visits all imports and definitions; (R4) in those dispatches every payload field of every variant is bound and its value reaches an emitting sink. A datum "
+    "exhaustive without wildcard, so a new node kind cannot be silently dropped; (R3) imports are sorted by schema name before they are emitted and the formatter visits all imports and definitions; (R4) in those dispatches every payload field of every variant is bound and its value reaches an emitting sink. (R5) no non-error path of a formatter "
+    "function that emits a datum somewhere skips that emit unless a dominating test shows the datum to be empty / None (is_empty, is_some, the None arm of an Option, or the "
+    "false result of a boolean helper / local whose falsity implies one of these); handing the whole node to an emitting function or dispatching on the datum counts as emitting. A datum "
     "that is never emitted cannot survive formatting — a necessary condition of 'parses to the same schema'. NOT decided: re-parse equality, diagnostics "
     "preservation, idempotence, the blank-line state machine."
 )
@@ -200,6 +202,8 @@ def run(rep):
     rep.floor("C18-R2", "matches on AST enums in emitting functions", n, 7)
     rep.floor("C18-R4", "variant payload fields of AST enums", n_payload, 20)
 
+    r5(rep, prog, fm, acc)
+
     # ---- R3 imports sorted ----------------------------------------------------------------------------
     im = prog.one(r"^aldrin_parser::fmt::Formatter::<'a>::imports$|^aldrin_parser::fmt::Formatter::imports$")
     srt = [c for c in im.calls if c.name in ("sort_by_key", "sort", "sort_by", "sort_unstable_by_key", "sort_by_cached_key")]
@@ -217,3 +221,190 @@ def run(rep):
         return any(c.name == fn and (c.callee or "").startswith("aldrin_parser::fmt::Formatter") and len(c.args) == 3 and any("Schema::%s(schema)" % fn in d for d in sc.describe(c.args[2])) for c in sc.calls)
     ok = passes("imports") and passes("definitions")
     rep.check(ok, "C18-R3", sc.def_, "visits-all", "the formatter must visit all imports and all definitions of the schema", detail={})
+
+
+# ---- R5: a datum may be skipped only when it is absent ------------------------------------------------
+
+class Absence:
+    """decides whether a CFG edge is evidence that a datum (an accessor result or a slice / Option parameter) is
+    absent: `x.is_empty()` true, `x.is_some()` false, `None` of an Option / exhausted iterator over it, or the false
+    result of a boolean helper / local whose falsity implies one of these (short-circuit `||` chains)."""
+
+    def __init__(self, prog):
+        self.prog = prog
+        self.helper_cache = {}
+
+    def mentions(self, b, operand, pats):
+        for d in b.describe(operand):
+            if any(p.search(d) for p in pats):
+                return True
+        return False
+
+    def place_mentions(self, b, place, pats):
+        for d in mir.describe_place(b, place, 16, set()):
+            if any(p.search(d) for p in pats):
+                return True
+        return False
+
+    def dom_evidence(self, b, bb, pats, seen):
+        for (u, g, labels) in b.dominating_guards(bb):
+            if self.edge_evidence(b, u, g, labels, pats, seen):
+                return True
+        return False
+
+    def edge_evidence(self, b, u, g, labels, pats, seen):
+        if g is None or not labels:
+            return False
+        if g["kind"] == "variant":
+            return all(l == "None" for l in labels) and self.place_mentions(b, g["place"], pats)
+        if g["kind"] == "bool":
+            t = b.blocks[u]["t"]
+            # labels are semantic (negation applied); recover the raw value of the switch operand
+            val = labels[0]
+            if g.get("neg"):
+                val = not val
+            return self.implies_absent(b, t["d"], val, pats, seen, 8)
+        return False
+
+    def implies_absent(self, b, operand, val, pats, seen, depth):
+        """(operand == val) => datum absent"""
+        p = mir.op_place(operand)
+        if p is None:
+            k = mir.op_const(operand)
+            r = (k or {}).get("repr") if isinstance(k, dict) else None
+            if r in ("true", "false"):
+                return (r == "true") != val   # a constant that cannot have the value: vacuous
+            return False
+        if depth <= 0 or len(p) != 1:
+            return False
+        key = (b.def_, p[0], val)
+        if key in seen:
+            return False
+        seen = seen | {key}
+        dl = b.defs().get(p[0], [])
+        if not dl:
+            return False
+        for ent in dl:
+            if ent[0] == "stmt":
+                bb, st = ent[1], ent[3]
+                r = st["r"]
+                ok = False
+                if r["k"] in ("use", "cast"):
+                    ok = self.implies_absent(b, r["o"][0], val, pats, seen, depth - 1)
+                elif r["k"] == "un" and r["op"] == "Not":
+                    ok = self.implies_absent(b, r["o"][0], not val, pats, seen, depth - 1)
+                if not ok and not self.dom_evidence(b, bb, pats, seen):
+                    return False
+            elif ent[0] == "call":
+                c = ent[2]
+                ok = False
+                if c.name in ("is_empty", "is_none") and c.args and self.mentions(b, c.args[0], pats):
+                    ok = (val is True)
+                elif c.name == "is_some" and c.args and self.mentions(b, c.args[0], pats):
+                    ok = (val is False)
+                elif val is False:
+                    hb = self.prog.body(c.resolved or c.callee or "")
+                    if hb is not None and hb.locals[0]["ty"] == "bool":
+                        for j, a in enumerate(c.args):
+                            if self.mentions(b, a, pats) and self.helper_false_implies_absent(hb, j + 1):
+                                ok = True
+                if not ok and not self.dom_evidence(b, c.bb, pats, seen):
+                    return False
+            else:
+                return False
+        return True
+
+    def helper_false_implies_absent(self, hb, param_local):
+        key = (hb.def_, param_local)
+        if key not in self.helper_cache:
+            self.helper_cache[key] = False
+            name = hb.locals[param_local].get("name") or ("arg%d" % param_local)
+            pats = [re.compile(r"(^|[^\w])%s([^\w]|$)" % re.escape(name))]
+            self.helper_cache[key] = self.implies_absent(hb, ["c", [0]], False, pats, frozenset(), 8)
+        return self.helper_cache[key]
+
+
+def r5(rep, prog, fm, acc):
+    A = Absence(prog)
+    n = 0
+    n_cond = 0
+    enums = set(a["def"] for a in prog.adts.values() if a["def"].startswith(AST) and a["kind"] == "Enum")
+    # accessors that hand out an AST enum: data read from its payload exist in one arm only (R4's business)
+    enum_returning = set()
+    for X, ms in acc.items():
+        for m, d in ms.items():
+            if any(e in prog.body(d).locals[0]["ty"] for e in enums):
+                enum_returning.add("%s::%s" % (X.split("::")[-1], m))
+    for b in sorted(fm, key=lambda x: x.def_):
+        if LAYOUT.match(b.name or "") or b.kind == "Closure":
+            continue
+        emits = [c for c in b.calls if is_emit(c)]
+        if not emits:
+            continue
+        data = {}   # label -> patterns
+        for c in b.calls:
+            for X, ms in acc.items():
+                if (c.callee or "") == X + "::" + (c.name or "") and c.name in ms:
+                    lab = "%s::%s" % (X.split("::")[-1], c.name)
+                    pats = data.setdefault(lab, {"own": re.compile(re.escape(lab + "(")), "anc": set(), "recv": set(), "payload": False})
+                    for d in b.describe(c.args[0]):
+                        pats["recv"].add(d)
+                        for m in re.finditer(r"(\w+::\w+)\(", d):
+                            pats["anc"].add(m.group(1))
+                        m = re.match(r"^(\w+)\.\d", d)
+                        if m and any(b.locals[l].get("name") == m.group(1) and any(e in b.locals[l]["ty"] for e in enums) for l in range(1, b.argc + 1)):
+                            pats["payload"] = True
+        for l in range(1, b.argc + 1):
+            ty = b.locals[l]["ty"]
+            nm = b.locals[l].get("name")
+            if nm and AST[:-2] in ty and (ty.startswith("&[") or ty.startswith("std::option::Option<") or ty.startswith("&std::vec::Vec<")):
+                data["param " + nm] = {"own": re.compile(r"(^|[^\w])%s([^\w]|$)" % re.escape(nm)), "anc": set(), "recv": set(), "payload": False}
+        # error exits: the Break edge of every `?`
+        err_edges = set()
+        for u in b.live_blocks():
+            t = b.blocks[u]["t"]
+            if t["k"] != "switch":
+                continue
+            g = b.switch_guard(u)
+            if g and g.get("kind") == "variant" and (g.get("adt") or "").endswith("ControlFlow"):
+                for v in b.succ(u):
+                    if "Break" in (b.edge_label(u, v) or []):
+                        err_edges.add((u, v))
+        for lab, ps in sorted(data.items()):
+            own = [ps["own"]]
+            if ps["payload"] or ps["anc"] & enum_returning:
+                continue   # read from the payload of one variant: bound-and-emitted is decided by R4
+            sites = set(e.bb for e in emits if any(A.mentions(b, a, own) for a in e.args))
+            if not sites:
+                continue   # emitted elsewhere (passed on by the caller) or excepted: R1's business
+            # handing the whole node to an emitting function emits the datum too
+            sites |= set(e.bb for e in emits if any(b.describe(a) & ps["recv"] for a in e.args))
+            # a dispatch on the datum itself (match on an AST enum / integer) emits it through the chosen arm
+            for u in b.live_blocks():
+                if b.blocks[u]["t"]["k"] != "switch":
+                    continue
+                g = b.switch_guard(u)
+                if g and ((g.get("kind") == "variant" and (g.get("adt") or "") in enums and A.place_mentions(b, g["place"], own)) or (g.get("kind") == "int" and g.get("call") is not None and any(A.mentions(b, a, own) for a in g["call"].args))):
+                    if any(b.dominates(u, e.bb) and u != e.bb for e in emits):
+                        sites.add(u)
+            pats = own + [re.compile(re.escape(a + "(")) for a in sorted(ps["anc"])]
+            cut = set(err_edges)
+            for u in b.live_blocks():
+                t = b.blocks[u]["t"]
+                if t["k"] != "switch":
+                    continue
+                g = b.switch_guard(u)
+                for v in set(b.succ(u)):
+                    labs = b.edge_label(u, v)
+                    if A.edge_evidence(b, u, g, labs, pats, frozenset()):
+                        cut.add((u, v))
+            reach = b.reachable(0, without_nodes=sites, without_edges=cut)
+            skipped = [e for e in b.exits() if e in reach]
+            n += 1
+            if any(u for (u, v) in cut - err_edges):
+                n_cond += 1
+            rep.check(not skipped, "C18-R5", b.def_, "skip-only-when-absent:%s" % lab,
+                      "there is a non-error path through this formatter function that emits nothing for %s although no dominating test shows it to be empty / None: the datum would be dropped" % lab,
+                      line=b.span, detail={"emit_blocks": sorted(sites), "evidence_edges": len(cut - err_edges)})
+    rep.floor("C18-R5", "data with an emit site in the function that reads them", n, 40)
+    rep.floor("C18-R5", "data whose emission is conditional on an absence test", n_cond, 10)
